@@ -532,9 +532,15 @@ class CommProp(core.Prop):
         nrand = 2000 if quick else 100000
         for i in range(nrand):
             n = rng.choice([1, 2, 2, 3, 3, 3, 4, 4])
+            big = rng.random() < 0.03
+            if big:
+                n = rng.randint(11, 12)             # what the small scopes never reach: two-digit agent indices
             learning = [rng.random() < 0.85 for _ in range(n)]
             script = plain_script(n, learning)
             tags = ["random"]
+            if big:
+                script["plainIds"] = True
+                tags.append("eleven-and-more-agents-plain-ids")
             if rng.random() < 0.25:
                 script["shadow"] = rng.randrange(10 ** 6)       # a second wrapper is used in between (see Session)
                 tags.append("second-wrapper-in-process")
